@@ -3,6 +3,7 @@ package cluster
 import (
 	"encoding/binary"
 	"fmt"
+	"os"
 	"io"
 	"sort"
 	"sync"
@@ -380,6 +381,9 @@ func (s *SMInst) enterExcl(method string) int64 {
 	t := s.clk.Now()
 	s.mu.Lock()
 	s.calls[method]++
+	if method == "Close" && os.Getenv("VERIF_DEBUG") == "4" {
+		fmt.Fprintf(os.Stderr, "Close of %s: shared=%d excl=%q\n", s.id(), s.shared, s.excl)
+	}
 	if s.closed {
 		s.sink.Violation("C11", "call-after-close:"+method, fmt.Sprintf("%s: %s called after Close", s.id(), method), s.witness())
 	}
@@ -640,7 +644,7 @@ func (r *regularSM) SaveSnapshot(w io.Writer, _ sm.ISnapshotFileCollection, stop
 func (r *regularSM) RecoverFromSnapshot(rd io.Reader, _ []sm.SnapshotFile, _ <-chan struct{}) error {
 	return r.s.recoverFrom(rd)
 }
-func (r *regularSM) Close() error { return r.s.close() }
+func (r *regularSM) Close() error             { return r.s.close() }
 func (r *regularSM) GetHash() (uint64, error) { return r.s.DataHash(), nil }
 
 // ---- IConcurrentStateMachine ----
